@@ -340,7 +340,9 @@ def update_comment_grid(ctx):
                 for ci in ('  ', '      ', '\t', ' '):
                     if ci == oi:
                         continue
-                    for new in ('', 'x', 'a\nb'):
+                    ci0 = ci
+                    for new, raw_first in [(n_, rf) for n_ in ('', 'x', 'a\nb') for rf in (False, True)]:
+                        ci = ci0
                         c_line = f'{ci}; old'
                         o_line = f'{oi}Assets:Foo  1 USD' if owner_kind == 'posting' else f'{oi}kk: 1'
                         body = [c_line, o_line] if side == 'leading' else [o_line, c_line]
@@ -356,9 +358,19 @@ def update_comment_grid(ctx):
                         if target is None or getattr(target, side + '_comment') is None:
                             ctx.count('comment-update:not-attributed-that-way')
                             continue
-                        before_ind = indent_tokens(f.token_store)
                         bc0 = getattr(target, 'raw_' + side + '_comment')
-                        ctx.case(('comment-update', owner_kind, side, oi, ci, new))
+                        if raw_first:
+                            # the comment's line is first rewritten as raw text with ANOTHER indentation: that is the indentation
+                            # the line has from then on, and the one a later value update must keep
+                            ci = '\t ' if ci != '\t ' else '   '
+                            case = dict(case, raw_first=ci)
+                            try:
+                                bc0.raw_text = f'{ci}; raw'
+                            except Exception as e:
+                                ctx.oracle_fail('C18:raises:comment-update', f'raw_text assignment: {type(e).__name__}: {str(e)[:160]}', case)
+                                continue
+                        before_ind = indent_tokens(f.token_store)
+                        ctx.case(('comment-update', owner_kind, side, oi, ci, new, raw_first))
                         try:
                             setattr(target, side + '_comment', new)
                         except Exception as e:
